@@ -280,6 +280,100 @@ func recvScenario(name string, regs []sendSpec, script []wireSeg, wantErr string
 	return e1lib.Scenario{Name: name, Body: body, Check: check, Cfg: rt.Config{Horizon: time.Hour}}
 }
 
+// unregScenario: both roles of protocol 2 are registered; the owner unregisters ONE of them (which)
+// after the first segment for it was delivered; the segments that follow for the OTHER role must still be
+// delivered to it (and only to it), and a later segment for the unregistered role closes the
+// connection with the unknown-protocol error ("delivered only to the receiver registered for that
+// protocol number and direction").
+func unregScenario(name string, which muxer.ProtocolRole, frag bool) e1lib.Scenario {
+	I, R := muxer.ProtocolRoleInitiator, muxer.ProtocolRoleResponder
+	other := R
+	if which == R {
+		other = I
+	}
+	body := func() {
+		a, b := rt.ConnPair("mux", "peer")
+		a.Frag = frag
+		m := muxer.New(a)
+		done := make(chan struct{}, 2)
+		first := make(chan struct{}, 4)
+		for _, role := range []muxer.ProtocolRole{I, R} {
+			_, recvCh, _ := m.RegisterProtocol(2, role)
+			rt.Go(fmt.Sprintf("consumer-2-%d", role), func() {
+				for seg := range rt.Range("harness:consume", (<-chan *muxer.Segment)(recvCh)) {
+					rt.Log("deliver role=%d resp=%v payload=%s", role, seg.IsResponse(), seg.Payload)
+					if role == which {
+						rt.Send("harness:first", first, struct{}{})
+					}
+				}
+				rt.Send("harness:cdone", done, struct{}{})
+			})
+		}
+		m.Start()
+		gate := make(chan struct{})
+		rt.Go("peer", func() {
+			// one segment for the role that is about to be unregistered
+			if _, err := b.Write(rawSegment(2, which == I, []byte("w1"))); err != nil {
+				return
+			}
+			rt.Recv("harness:gate", gate)
+			// two for the role that stays, then one for the role that is gone
+			for _, ws := range []wireSeg{{2, other == I, []byte("o1")}, {2, other == I, []byte("o2")}, {2, which == I, []byte("w2")}} {
+				if _, err := b.Write(rawSegment(ws.proto, ws.response, ws.payload)); err != nil {
+					return
+				}
+			}
+		})
+		rt.Go("owner", func() {
+			rt.Recv("harness:first", first)
+			m.UnregisterProtocol(2, which)
+			rt.Log("unregistered")
+			rt.Close("harness:gate", gate)
+		})
+		for err := range rt.Range("harness:errs", m.ErrorChan()) {
+			rt.Log("muxer error: %v", err)
+		}
+		rt.Recv("harness:join", done)
+		rt.Recv("harness:join", done)
+		rt.Log("muxer finished")
+	}
+	check := func(r *rt.Result) []rt.Finding {
+		if r.Verdict.Kind != "ok" {
+			return []rt.Finding{{Key: "verdict:" + r.Verdict.Kind, What: r.Verdict.Detail + " " + strings.Join(r.Verdict.Stuck, "; ")}}
+		}
+		var gotOther, gotWhich []string
+		errs := ""
+		for _, l := range r.Logs {
+			var ro int
+			var resp bool
+			var pl string
+			if n, _ := fmt.Sscanf(l, "deliver role=%d resp=%t payload=%s", &ro, &resp, &pl); n == 3 {
+				if (muxer.ProtocolRole(ro) == I) != resp {
+					return []rt.Finding{{Key: "unreg:wrong-direction", What: l}}
+				}
+				if muxer.ProtocolRole(ro) == other {
+					gotOther = append(gotOther, pl)
+				} else {
+					gotWhich = append(gotWhich, pl)
+				}
+			} else if strings.HasPrefix(l, "muxer error: ") {
+				errs += l[13:] + ";"
+			}
+		}
+		if strings.Join(gotWhich, ",") != "w1" {
+			return []rt.Finding{{Key: "unreg:unregistered-role-deliveries", What: fmt.Sprintf("unregistered role received %v, want [w1]", gotWhich)}}
+		}
+		if strings.Join(gotOther, ",") != "o1,o2" {
+			return []rt.Finding{{Key: "unreg:other-role-lost", What: fmt.Sprintf("the role that stayed registered received %v, want [o1 o2]; errors: %q", gotOther, errs)}}
+		}
+		if !strings.Contains(errs, "unknown protocol") {
+			return []rt.Finding{{Key: "unreg:missing-error", What: fmt.Sprintf("segment for the unregistered role: want the unknown-protocol error, got %q", errs)}}
+		}
+		return nil
+	}
+	return e1lib.Scenario{Name: name, Body: body, Check: check, Cfg: rt.Config{Horizon: time.Hour}}
+}
+
 func TestC09(t *testing.T) {
 	e1lib.Main(t, "C09", func(thorough bool) []e1lib.Scenario {
 		I, R := muxer.ProtocolRoleInitiator, muxer.ProtocolRoleResponder
@@ -294,6 +388,8 @@ func TestC09(t *testing.T) {
 			recvScenario("recv-wrong-direction", []sendSpec{{2, I, nil}}, []wireSeg{{2, true, []byte("a")}, {2, false, []byte("x")}, {2, true, []byte("never")}}, "unknown protocol", true, false),
 			recvScenario("recv-zero-length", []sendSpec{{2, I, nil}, {3, R, nil}}, []wireSeg{{3, false, []byte("q")}, {2, true, nil}, {2, true, []byte("never")}}, "zero-byte", true, false),
 			recvScenario("recv-both-roles", []sendSpec{{2, I, nil}, {2, R, nil}}, []wireSeg{{2, true, []byte("r1")}, {2, false, []byte("q1")}, {2, true, []byte("r2")}}, "", true, true),
+			unregScenario("unreg-initiator-keeps-responder", I, true),
+			unregScenario("unreg-responder-keeps-initiator", R, false),
 		)
 		for i := range scs {
 			scs[i].MinB = 1
